@@ -69,3 +69,50 @@ impl Rng {
         self.below(den) < num
     }
 }
+
+/// Runs `<exe> <child_cmd> <cases> <events> <start>` repeatedly; when the child dies inside case i
+/// (an abort in the code under test), appends `on_crash(case, status)` and resumes at i+1.
+pub fn run_crash_isolated(
+    child_cmd: &str,
+    cases_path: &str,
+    events_path: &str,
+    on_crash: impl Fn(&Value, String) -> Value,
+) -> i32 {
+    use std::io::{BufRead, BufReader};
+    use std::process::{Command, Stdio};
+    let cases = read_ndjson(cases_path);
+    std::fs::write(events_path, b"").unwrap();
+    let exe = std::env::current_exe().unwrap();
+    let mut start = 0usize;
+    let mut crashes = 0usize;
+    while start < cases.len() {
+        let mut child = Command::new(&exe)
+            .args([child_cmd, cases_path, events_path, &start.to_string()])
+            .stdout(Stdio::piped())
+            .stderr(Stdio::null())
+            .spawn()
+            .expect("spawn child");
+        let rd = BufReader::new(child.stdout.take().unwrap());
+        let mut last_done: Option<usize> = None;
+        for line in rd.lines() {
+            if let Some(n) = line.unwrap().strip_prefix("done ") {
+                last_done = n.trim().parse().ok();
+            }
+        }
+        let status = child.wait().unwrap();
+        let next = last_done.map(|d| d + 1).unwrap_or(start);
+        if status.success() && next >= cases.len() {
+            break;
+        }
+        crashes += 1;
+        let mut out = Out::append(events_path);
+        out.emit(&on_crash(&cases[next], format!("{status}")));
+        out.flush();
+        start = next + 1;
+        if crashes > 5000 {
+            eprintln!("too many crashes");
+            return 3;
+        }
+    }
+    0
+}
